@@ -629,6 +629,7 @@ static void delayed_free_all(void)
 	dl_n = 0;
 }
 
+ssize_t __real_sendto(int fd, const void *buf, size_t n, int flags, const struct sockaddr *to, socklen_t tl);
 static int fns_log_at_send;      /* UDP queries are logged when the resolver sends them (sendto is wrapped), not when the nameserver reads them */
 static struct { char n[300]; int t; int cnt; } fns_sent[256];
 static int fns_nsent;
@@ -638,6 +639,18 @@ static int fns_count_sent(const char *name, int t)
 	for (i = 0; i < fns_nsent; i++) if (fns_sent[i].t == t && !strcmp(fns_sent[i].n, name)) return ++fns_sent[i].cnt;
 	if (fns_nsent < 256) { snprintf(fns_sent[fns_nsent].n, sizeof fns_sent[0].n, "%s", name); fns_sent[fns_nsent].t = t; fns_sent[fns_nsent].cnt = 1; fns_nsent++; }
 	return 1;
+}
+/* replies held back until the scenario releases them (to place an answer exactly at a timer deadline) */
+static struct { int srv; unsigned char *b; int n; struct sockaddr_storage to; socklen_t tl; } fns_held[16];
+static int fns_nheld;
+static void fns_release(void)
+{
+	int i;
+	for (i = 0; i < fns_nheld; i++) {
+		__real_sendto(fns[fns_held[i].srv].ufd, fns_held[i].b, fns_held[i].n, 0, (struct sockaddr *)&fns_held[i].to, fns_held[i].tl);
+		free(fns_held[i].b);
+	}
+	fns_nheld = 0;
 }
 static int fns_count(const char *name, int t)
 {
@@ -690,7 +703,6 @@ static int fns_handle(int srv, const char *tr, const unsigned char *b, int n, un
 	fns_nq++;
 	return rl;
 }
-ssize_t __real_sendto(int fd, const void *buf, size_t n, int flags, const struct sockaddr *to, socklen_t tl);
 ssize_t __wrap_sendto(int fd, const void *buf, size_t n, int flags, const struct sockaddr *to, socklen_t tl)
 {
 	if (fns_log_at_send && elogf && to && to->sa_family == AF_INET && n >= 12) {
@@ -725,7 +737,10 @@ static void fns_udp_cb(evutil_socket_t fd, short what, void *arg)
 		int n = recvfrom(fd, b, sizeof b, 0, (struct sockaddr *)&ss, &sl), rl, dms, cl;
 		if (n < 0) break;
 		rl = fns_handle(srv, "udp", b, n, rep, &dms, &cl);
-		if (rl > 0 && dms > 0 && dl_n < 256) {
+		if (rl > 0 && cl == -2 && fns_nheld < 16) {           /* close_at -2: hold the reply until fns_release() */
+			fns_held[fns_nheld].srv = srv; fns_held[fns_nheld].b = malloc(rl); memcpy(fns_held[fns_nheld].b, rep, rl);
+			fns_held[fns_nheld].n = rl; memcpy(&fns_held[fns_nheld].to, &ss, sl); fns_held[fns_nheld].tl = sl; fns_nheld++;
+		} else if (rl > 0 && dms > 0 && dl_n < 256) {
 			struct delayed *d = calloc(1, sizeof *d);
 			struct timeval tv = { dms / 1000, (dms % 1000) * 1000 };
 			d->srv = srv; d->b = malloc(rl); memcpy(d->b, rep, rl); d->n = rl; memcpy(&d->to, &ss, sl); d->tl = sl;
@@ -776,7 +791,7 @@ static void fns_accept_cb(evutil_socket_t fd, short what, void *arg)
 static int fns_open(int n)
 {
 	int i, tries;
-	fns_n = 0; fns_nseen = 0; fns_nq = 0; fns_on_query = NULL; fns_nsent = 0; fns_log_at_send = 0;
+	fns_n = 0; fns_nseen = 0; fns_nq = 0; fns_on_query = NULL; fns_nsent = 0; fns_log_at_send = 0; fns_nheld = 0;
 	for (i = 0; i < n; i++) {
 		for (tries = 0; tries < 50; tries++) {
 			socklen_t sl = sizeof fns[i].addr;
@@ -867,8 +882,16 @@ static void mode_gai(jval *sc)
 		t0 = vt_now_ns;
 		ELOG("\"e\":\"lookup\",\"i\":%d", (int)k);
 		rq = evdns_getaddrinfo(dns, node, serv, j_int(l, "nohints", 0) ? NULL : &hints, gai2_cb, &g);
-		(void)rq;
-		{ int sync = g.done; if (!g.done) pump_until(&g.done, 3000); pump_now(1);
+		if (j_get(l, "release_ms")) {   /* place the held answer (and / or a cancel) exactly at a chosen virtual instant */
+			struct timespec ts = {0, 400000};
+			pump_now(3);
+			fns_release();
+			nanosleep(&ts, NULL);
+			vt_now_ns = t0 + j_int(l, "release_ms", 0) * 1000000LL;
+			if (j_int(l, "cancel", 0) && rq && !g.done) evdns_getaddrinfo_cancel(rq);
+			event_base_loop(base, EVLOOP_NONBLOCK);
+		}
+		{ int sync = g.done && !j_get(l, "release_ms"); if (!g.done) pump_until(&g.done, 3000); pump_now(2);
 		  fprintf(out, "%s{\"done\":%d,\"sync\":%d,\"err\":%d,\"nq\":%d,\"ms\":%lld,\"ai\":%s}", k ? "," : "", g.done, sync, g.err, fns_nq - q0,
 		      (long long)((vt_now_ns - t0) / 1000000), g.txt ? g.txt : "[]"); }
 		free(g.txt);
